@@ -59,6 +59,20 @@ def run_shard(spec, acc):
         for i in range(spec["pools"]):
             histories(rnd, spec["interleavings"], acc, sample=(i == 0))
             after_dead_architectures(rnd, acc)
+            for _ in range(5):
+                # one 'anything' rule object, logged with str() and re-used for one subject after the other: every
+                # application equals that of a fresh rule for the same subject
+                from . import c01
+
+                m0 = random_tree(rnd, 7, 11)
+                i0 = random_imports(rnd, m0, k_max=10)
+                e0 = build(m0, i0, check=False)
+                for (kind_, subj), d_, got in c01.anything_rule_looped_over_subjects(e0, m0, i0, rnd, acc) or []:
+                    fresh = run(mk_rule({"verb": "should_not", "dir": d_, "exc": False, "subs": [(kind_, subj)], "objs": [], "anything": True}), e0)
+                    acc.evaluated()
+                    acc.count("looped_rule_object_applications_compared_with_a_fresh_rule")
+                    if got != fresh:
+                        HUB.violation("C15", "history-dependent-outcome:anything-rule-object-looped-over-subjects", f"an 'anything' rule object that was printed and re-used for several subjects gave {got[0]} for {subj}, a fresh rule {fresh[0]}", {"mods": m0, "imps": i0, "subject": [kind_, subj], "dir": d_, "looped": got, "fresh": fresh})
             for _ in range(6):
                 layer_rule_two_architectures(rnd, acc)
     elif k == "permutations":
